@@ -327,3 +327,42 @@ func (t *transport) earlyCheck() {
 	})
 	r.Check("C09.early-check", shortFn(fn), "sticky-error-before-message", fn.Pos(), ok, why)
 }
+
+// deadlineUnderLock: the transport's write deadline belongs to whoever holds
+// Conn.mu.  Every SetWriteDeadline / SetDeadline invoked on Conn.conn happens
+// after the write lock was acquired on the path (or in an unexported helper
+// whose callers hold it): a setter that reaches the transport directly would
+// overwrite the deadline of a write another goroutine has in flight.
+func (t *transport) deadlineUnderLock(rule string) {
+	c, r := t.c, t.c.R
+	n := 0
+	for _, fn := range t.candidates() {
+		if t.unprot[fn] {
+			continue // judged at its callers (C09.writers)
+		}
+		ok, why := true, "every write-deadline call on the transport is made while holding Conn.mu"
+		seen := false
+		c.explore(rule, fn, t.opts(), func(p *core.Path) {
+			for i := range p.Events {
+				ev := &p.Events[i]
+				if ev.Kind != core.EvCall || ev.Static != nil || ev.Method == nil || !t.isConnLoad(ev.Recv) {
+					continue
+				}
+				if m := ev.Method.Name(); m != "SetWriteDeadline" && m != "SetDeadline" {
+					continue
+				}
+				seen = true
+				if _, held := muAcquire(p, t.mu, i); !held {
+					ok, why = false, "the transport's write deadline is set at "+c.P.Pos(ev.Instr.Pos())+" without holding Conn.mu: it replaces the deadline of a frame another goroutine is writing (a bounded WriteControl can block for ever, or a long write times out and poisons the connection)"
+				}
+			}
+		})
+		if seen {
+			n++
+			r.Check(rule, shortFn(fn), "write-deadline-under-lock", fn.Pos(), ok, why)
+		}
+	}
+	if n < 2 {
+		r.Fail(rule, "", "floor-write-deadline-sites", token.NoPos, "fewer than 2 functions set the transport write deadline (rule blind)")
+	}
+}
